@@ -256,6 +256,18 @@ Fixpoint has_template_open (s : text) : bool :=
   | [] => false
   end.
 
+(* ... or a backslash directly before a template closer (`\}}` is read as an escaped `}}`) *)
+Fixpoint has_bsl_close (s : text) : bool :=
+  match s with
+  | c :: r => (match r with
+               | d :: r2 => (c =? 92) && (d =? 125) && starts_with 125 r2
+               | [] => false
+               end) || has_bsl_close r
+  | [] => false
+  end.
+
+Definition template_syntax (s : text) : bool := has_template_open s || has_bsl_close s.
+
 Definition opt_tpath_eqb (a b : option tpath) : bool :=
   match a, b with
   | Some x, Some y => tpath_eqb x y
